@@ -4,6 +4,8 @@
 // corrupted neighbour shows up as a sanitizer report, which is counted as a violation of the current step.
 #include <xsimd/xsimd.hpp>
 
+#include <complex>
+#include <cstdint>
 #include <dlfcn.h>
 
 #include <new>
@@ -394,6 +396,12 @@ static void is_aligned_arch(const char* name)
         }
 }
 
+struct S8a2
+{
+    uint16_t v[4];
+};
+static_assert(sizeof(S8a2) == 8 && alignof(S8a2) == 2, "S8a2");
+
 template <class T>
 static void offsets(const char* tn)
 {
@@ -467,6 +475,12 @@ int main(int argc, char** argv)
     offsets<uint16_t>("uint16");
     offsets<float>("float");
     offsets<double>("double");
+    // element types whose alignment is smaller than their size: a pointer can be a valid T* without being a
+    // multiple of sizeof(T), and then no element of the array can ever be block-aligned
+    offsets<int64_t>("int64");
+    offsets<std::complex<float>>("complex<float>");
+    offsets<std::complex<double>>("complex<double>");
+    offsets<S8a2>("struct{uint16[4]}");
     // the default allocator satisfies aligned loads/stores of the default architecture
     {
         using B = xsimd::batch<float>;
